@@ -191,7 +191,8 @@ class FaultPlan:
     """
 
     def __init__(self, sites=(), retryable_kinds=(0,), short_sizes=(1,),
-                 max_body_retries=1, only_ops=None, only_keys=None):
+                 max_body_retries=1, only_ops=None, only_keys=None, fatal_kinds=('read',)):
+        self.fatal_kinds = tuple(fatal_kinds)     # 'read': a plain Exception; 'oserror': an OSError that is no connection error
         self.sites = tuple(sites)
         self.retryable_kinds = tuple(retryable_kinds)
         self.short_sizes = tuple(short_sizes)
@@ -238,8 +239,12 @@ class FakeStreamingBody:
                 c.note_injected(e, 'stream:retryable', self._rec, retryable=True)
                 raise e
         if plan.on('stream:fatal') and plan.key_ok(self._rec):
-            if s.choose(2, 'stream:fatal'):
-                e = InjectedReadError('stream fatal ' + self._rec['id'])
+            k = s.choose(1 + len(plan.fatal_kinds), 'stream:fatal')
+            if k:
+                if plan.fatal_kinds[k - 1] == 'oserror':
+                    e = InjectedOSError(5, 'injected EIO while reading the stream of ' + self._rec['id'])
+                else:
+                    e = InjectedReadError('stream fatal ' + self._rec['id'])
                 c.note_injected(e, 'stream:fatal', self._rec, retryable=False)
                 raise e
         pat = c.stream_pattern
@@ -625,7 +630,12 @@ class FakeClient:
             # send
             data = b''
             retry = False
-            while True:
+            # the attempt may fail before a single byte of the body was taken (connection refused,
+            # 503 to Expect: 100-continue): botocore rewinds a body it has not read yet
+            if plan.on('body:retry') and attempts <= plan.max_body_retries:
+                if s.choose(2, 'body:retry'):
+                    retry = True
+            while not retry:
                 if self.send_think:
                     s.sleep(self.send_think, label='socket')      # a slow socket: wire demand below the limit
                 s.point('body.read', rec['id'])
